@@ -6,11 +6,34 @@ import (
 	"flag"
 	"fmt"
 	"os"
+	"reflect"
 	"strings"
 
 	"github.com/goatcms/goatcore/app"
 	"github.com/goatcms/goatcore/app/dependency"
+	"github.com/goatcms/goatcore/app/injector"
 )
+
+// injectStruct builds a struct type with one *instance field per edge (tag dep:"X" / dep:"?X") and a string
+// field for the extra map injector (tag m:"k"), injects into a fresh value and returns the fields.
+func injectStruct(dp app.DependencyProvider, fields []diEdge) ([]*instance, string, error) {
+	var sf []reflect.StructField
+	for i, f := range fields {
+		tag := f.T
+		if f.Opt {
+			tag = "?" + tag
+		}
+		sf = append(sf, reflect.StructField{Name: fmt.Sprintf("F%d", i), Type: reflect.TypeOf((*instance)(nil)), Tag: reflect.StructTag(fmt.Sprintf(`dep:"%s"`, tag))})
+	}
+	sf = append(sf, reflect.StructField{Name: "M", Type: reflect.TypeOf(""), Tag: `m:"k"`})
+	v := reflect.New(reflect.StructOf(sf))
+	err := dp.InjectTo(v.Interface())
+	out := make([]*instance, len(fields))
+	for i := range fields {
+		out[i], _ = v.Elem().Field(i).Interface().(*instance)
+	}
+	return out, v.Elem().Field(len(fields)).String(), err
+}
 
 func init() { commands["dicases"] = cmdDICases }
 
@@ -26,6 +49,12 @@ type diCall struct {
 	Tag   string          `json:"tag"`
 	Calls map[string]int  `json:"-"`
 	RawC  json.RawMessage `json:"calls"`
+	// struct injection: the fields in order and what the Get of each processed field gave
+	Fields []diEdge `json:"fields"`
+	Got    []struct {
+		Res string `json:"res"`
+		Tag string `json:"tag"`
+	} `json:"got"`
 }
 
 type diCase struct {
@@ -157,84 +186,149 @@ func cmdDICases(args []string) error {
 				return &instance{Tag: tag, Name: name, Seq: seq}, nil
 			}
 		}
-		dp := dependency.NewProvider("dep")
-		got := map[string]*instance{} // first instance handed out per name
-		ok := true
-		for i, h := range c.Hist {
-			var mc map[string]int
-			// calls is printed as a record (object) or, for 1..n domains, not applicable here
-			json.Unmarshal(h.RawC, &mc)
-			var err error
-			var ins *instance
-			func() {
-				defer func() {
-					if r := recover(); r != nil {
-						err = fmt.Errorf("panic: %v", r)
-						fail("panic:"+h.Call, inner, fmt.Sprint(r))
-						ok = false
+		hasInject := false
+		for _, h := range c.Hist {
+			if h.Call == "inject" {
+				hasInject = true
+			}
+		}
+		variants := []bool{true}
+		if hasInject {
+			variants = []bool{true, false} // the extra map injector with / without its required key
+		}
+		for _, mapHas := range variants {
+			for n := range calls {
+				delete(calls, n)
+			}
+			seq = 0
+			dp := dependency.NewProvider("dep")
+			mdata := map[string]interface{}{}
+			if mapHas {
+				mdata["k"] = "v"
+			}
+			dp.AddInjectors([]app.Injector{injector.NewMultiInjector([]app.Injector{injector.NewMapInjector("m", mdata)})})
+			got := map[string]*instance{} // first instance handed out per name
+			ok := true
+			for i, h := range c.Hist {
+				var mc map[string]int
+				// calls is printed as a record (object) or, for 1..n domains, not applicable here
+				json.Unmarshal(h.RawC, &mc)
+				var err error
+				var ins *instance
+				func() {
+					defer func() {
+						if r := recover(); r != nil {
+							err = fmt.Errorf("panic: %v", r)
+							fail("panic:"+h.Call, inner, fmt.Sprint(r))
+							ok = false
+						}
+					}()
+					switch h.Call {
+					case "set":
+						err = dp.Set(h.N, &instance{Tag: "set", Name: h.N})
+					case "setdefault":
+						err = dp.SetDefault(h.N, &instance{Tag: "def", Name: h.N})
+					case "addfactory":
+						err = dp.AddFactory(h.N, mkFactory(h.N, "fac"))
+					case "adddefaultfactory":
+						err = dp.AddDefaultFactory(h.N, mkFactory(h.N, "dfac"))
+					case "inject":
+						var vals []*instance
+						var mval string
+						vals, mval, err = injectStruct(dp, h.Fields)
+						// the model's verdict is about the dependency fields; the extra injector then decides
+						fieldsOk := h.Res == "ok"
+						wantErr := !fieldsOk || !mapHas
+						if (err != nil) != wantErr {
+							fail("inject-result", inner, fmt.Sprintf("step %d InjectTo(%v) returned %v (extra injector has its key: %v), specification: fields %s", i, h.Fields, err, mapHas, h.Res))
+							ok = false
+							return
+						}
+						if (mval == "v") != (fieldsOk && mapHas) {
+							fail("inject-extra", inner, fmt.Sprintf("step %d the extra injector's field is %q (fields %s, key present %v)", i, mval, h.Res, mapHas))
+							ok = false
+							return
+						}
+						for j := range h.Fields {
+							var want *struct{ Res, Tag string }
+							if j < len(h.Got) {
+								want = &struct{ Res, Tag string }{h.Got[j].Res, h.Got[j].Tag}
+							}
+							switch {
+							case want == nil || want.Res != "ok":
+								if vals[j] != nil {
+									fail("inject-field", inner, fmt.Sprintf("step %d field %d (%v) was set to %+v although its resolution %s", i, j, h.Fields[j], vals[j], map[bool]string{true: "never happened", false: "failed"}[want == nil]))
+									ok = false
+								}
+							default:
+								if vals[j] == nil || vals[j].Tag != want.Tag || vals[j].Name != h.Fields[j].T {
+									fail("inject-field", inner, fmt.Sprintf("step %d field %d (%v) holds %+v, specification: instance from %q", i, j, h.Fields[j], vals[j], want.Tag))
+									ok = false
+								} else if prev, seen := got[h.Fields[j].T]; seen && prev != vals[j] {
+									fail("not-singleton", inner, fmt.Sprintf("step %d field %d (%v) holds a different instance than an earlier request", i, j, h.Fields[j]))
+									ok = false
+								} else {
+									got[h.Fields[j].T] = vals[j]
+								}
+							}
+						}
+						err = nil
+						if !fieldsOk {
+							err = fmt.Errorf("fields aborted")
+						}
+					case "get":
+						switch i % 3 {
+						case 0:
+							var v interface{}
+							v, err = dp.Get(h.N)
+							if err == nil {
+								ins, _ = v.(*instance)
+							}
+						case 1:
+							ins, err = injectGet(dp, h.N, false)
+						default:
+							ins, err = injectGet(dp, h.N, true) // optional field: never an error, field set iff resolvable
+							if err != nil {
+								fail("optional-inject-error", inner, fmt.Sprintf("step %d: InjectTo with an optional field returned %v", i, err))
+								ok = false
+							} else if ins == nil {
+								err = fmt.Errorf("unresolved")
+							}
+						}
 					}
 				}()
-				switch h.Call {
-				case "set":
-					err = dp.Set(h.N, &instance{Tag: "set", Name: h.N})
-				case "setdefault":
-					err = dp.SetDefault(h.N, &instance{Tag: "def", Name: h.N})
-				case "addfactory":
-					err = dp.AddFactory(h.N, mkFactory(h.N, "fac"))
-				case "adddefaultfactory":
-					err = dp.AddDefaultFactory(h.N, mkFactory(h.N, "dfac"))
-				case "get":
-					switch i % 3 {
-					case 0:
-						var v interface{}
-						v, err = dp.Get(h.N)
-						if err == nil {
-							ins, _ = v.(*instance)
-						}
-					case 1:
-						ins, err = injectGet(dp, h.N, false)
-					default:
-						ins, err = injectGet(dp, h.N, true) // optional field: never an error, field set iff resolvable
-						if err != nil {
-							fail("optional-inject-error", inner, fmt.Sprintf("step %d: InjectTo with an optional field returned %v", i, err))
-							ok = false
-						} else if ins == nil {
-							err = fmt.Errorf("unresolved")
-						}
+				if !ok {
+					break
+				}
+				res := "ok"
+				if err != nil {
+					res = "err"
+				}
+				if res != h.Res {
+					fail("result:"+h.Call, inner, fmt.Sprintf("step %d %s(%s) = %s (%v), specification: %s", i, h.Call, h.N, res, err, h.Res))
+					break
+				}
+				if h.Call == "get" && res == "ok" {
+					if ins == nil || ins.Tag != h.Tag || ins.Name != h.N {
+						fail("precedence", inner, fmt.Sprintf("step %d get(%s) returned %+v, specification: instance from %q", i, h.N, ins, h.Tag))
+						break
+					}
+					if prev, seen := got[h.N]; seen && prev != ins {
+						fail("not-singleton", inner, fmt.Sprintf("step %d get(%s) returned a different instance than before", i, h.N))
+						break
+					}
+					got[h.N] = ins
+				}
+				same := true
+				for n, k := range mc {
+					if calls[n] != k {
+						same = false
 					}
 				}
-			}()
-			if !ok {
-				break
-			}
-			res := "ok"
-			if err != nil {
-				res = "err"
-			}
-			if res != h.Res {
-				fail("result:"+h.Call, inner, fmt.Sprintf("step %d %s(%s) = %s (%v), specification: %s", i, h.Call, h.N, res, err, h.Res))
-				break
-			}
-			if h.Call == "get" && res == "ok" {
-				if ins == nil || ins.Tag != h.Tag || ins.Name != h.N {
-					fail("precedence", inner, fmt.Sprintf("step %d get(%s) returned %+v, specification: instance from %q", i, h.N, ins, h.Tag))
+				if !same {
+					fail("factory-invocations:"+h.Call, inner, fmt.Sprintf("step %d after %s(%s): factories were entered %v times, specification %v", i, h.Call, h.N, calls, mc))
 					break
 				}
-				if prev, seen := got[h.N]; seen && prev != ins {
-					fail("not-singleton", inner, fmt.Sprintf("step %d get(%s) returned a different instance than before", i, h.N))
-					break
-				}
-				got[h.N] = ins
-			}
-			same := true
-			for n, k := range mc {
-				if calls[n] != k {
-					same = false
-				}
-			}
-			if !same {
-				fail("factory-invocations:"+h.Call, inner, fmt.Sprintf("step %d after %s(%s): factories were entered %v times, specification %v", i, h.Call, h.N, calls, mc))
-				break
 			}
 		}
 	}
